@@ -563,7 +563,7 @@ func (w *World) Iterate() *Violation {
 		case 0:
 			return viol("key-lost", "iteration missed key %x", d)
 		default:
-			return viol("wrong-return", "iteration returned key %x %d times", d, seen[d])
+			return viol("iteration-duplicate", "iteration returned key %x %d times", d, seen[d])
 		}
 	}
 	return nil
